@@ -14,3 +14,40 @@ def tensor_nodes(n, nfields):
     nodes = np.array(list(itertools.product(x, repeat=nfields)))
     weights = np.array([np.prod(c) for c in itertools.product(w, repeat=nfields)])
     return nodes, weights
+
+
+def second_order_verdict(dts, resid_vecs, scale):
+    """Decide whether the residual vectors R(dt) of a dt ladder (dt halved each time) are O(dt^2).
+
+    Pass outright when every consecutive ratio |R(dt)|/|R(dt/2)| >= 3.  Competing dt^2 and dt^3 terms can
+    legitimately depress individual ratios before the asymptotic regime, so otherwise the first-order
+    coefficient C of R(dt) = C dt + A dt^2 + B dt^3 + ... is extrapolated (Lagrange, R/dt -> dt = 0) from the
+    three coarsest and from the three finest steps: a genuine O(dt) term gives two agreeing non-zero
+    estimates, a pure O(dt^2) residual gives estimates that shrink with the extrapolation error.
+    Returns (ok, info)."""
+    norms = [float(np.linalg.norm(r) / scale) for r in resid_vecs]
+    ratios = [a / b for a, b in zip(norms[:-1], norms[1:]) if a > 1e-9 and b > 1e-12]
+    info = {"residuals": norms, "ratios": ratios}
+    if not ratios:
+        return None, info
+    if min(ratios) >= 3.0:
+        return True, info
+
+    def extrap(idx):
+        xs = [dts[i] for i in idx]
+        c = 0
+        for i in idx:
+            lam = 1.0
+            for j in idx:
+                if j != i:
+                    lam *= (0.0 - dts[j]) / (dts[i] - dts[j])
+            c = c + lam * resid_vecs[i] / dts[i]
+        return c
+
+    n = len(dts)
+    ca = extrap(list(range(0, 3)))
+    cb = extrap(list(range(n - 3, n)))
+    na, nb, nd = (float(np.linalg.norm(v) / scale) for v in (ca, cb, ca - cb))
+    info.update({"first_order_coeff_coarse": na, "first_order_coeff_fine": nb, "difference": nd})
+    ok = nb <= 3.0 * nd + 1e-7
+    return bool(ok), info
